@@ -85,6 +85,28 @@ func c11Scenarios() []ConcScenario {
 				}
 			}
 		}
+		// the client sends its next request and goes away without waiting for the answer: the gateway finds out
+		// when it writes the response (for CHANNEL_CREATE: after it has dialled the host)
+		next := map[string]string{"open": "hs", "hs": "tc", "tc": "ta", "ta": "cc"}
+		for _, stage := range []string{"open", "hs", "tc", "ta"} {
+			gone := []string{"drop"}
+			if kind == "legacy" {
+				gone = append(gone, "dropout+dropin", "dropin")
+			}
+			for _, g := range gone {
+				script := []string{"send:" + next[stage]}
+				script = append(script, strings.Split(g, "+")...)
+				script = append(script, "idle")
+				out = append(out, ConcScenario{Name: fmt.Sprintf("%s/send-%s-then-%s", kind, next[stage], g),
+					Plans: []TunnelPlan{{Kind: kind, ConnID: "A", User: "ua", IP: "10.0.0.1", Host: "ha.example:3389", StopAt: stage, Script: script, Chunks: [][]byte{[]byte("host-bytes")}}}})
+			}
+			if kind == "legacy" {
+				// the outbound connection is lost first, then the client goes on with the next request on the
+				// inbound one (the response cannot be written), and finally leaves
+				out = append(out, ConcScenario{Name: fmt.Sprintf("%s/outbound-lost-then-%s-then-dropin", kind, next[stage]),
+					Plans: []TunnelPlan{{Kind: kind, ConnID: "A", User: "ua", IP: "10.0.0.1", Host: "ha.example:3389", StopAt: stage, Script: []string{"dropout", "settle", "send:" + next[stage], "settle", "dropin", "idle"}}}})
+			}
+		}
 		// the client has stopped reading while its host keeps writing (the relay goroutine is blocked in its write
 		// to the client, send window 32 bytes), then the tunnel ends
 		stalledCauses := []string{"drop", "bad", "garbage", "close"}
